@@ -19,6 +19,7 @@ MANIFEST = dict(
 
 SAFE = dict(declared=True, shared_k=False, append_inline=True, open_take=False, dup_names=False)
 FULL = dict(declared=True, shared_k=True, append_inline=False, open_take=True, dup_names=True)
+RICH = dict(declared=False, shared_k=False, append_inline=True, open_take=False, dup_names=False, literal=True, functions=True)
 UNDECL = dict(declared=False, shared_k=False, append_inline=True, open_take=False, dup_names=False)
 
 
@@ -88,6 +89,7 @@ def run(ctx):
     fixed = random.Random(20240924)
     nbad += explore(ctx, "safe", fixed, 500 if quick else 3000, SAFE, "sql.sqlite")
     nbad += explore(ctx, "safe-generic", fixed, 200 if quick else 1500, SAFE, "sql.generic")
+    nbad += explore(ctx, "literals+functions", fixed, 250 if quick else 2000, RICH, "sql.sqlite")
     nbad += explore(ctx, "full", fixed, 200 if quick else 1500, FULL, "sql.sqlite")
     nbad += explore(ctx, "undeclared", fixed, 150 if quick else 1000, UNDECL, "sql.sqlite", no_append=False)
     nbad += explore(ctx, "seed-tail", ctx.rng, 300 if quick else 3000, SAFE, "sql.sqlite")
